@@ -2968,6 +2968,7 @@ impl HnswBackend {
     ) -> Result<usize> {
         let mut deleted_count = 0;
         let mut segments_to_keep = Vec::new();
+        let mut segments_to_delete: Vec<(String, PathBuf)> = Vec::new();
 
         if snapshot_last_wal_seq == 0 && snapshot_timestamp == 0 {
             warn!("snapshot has no sequence or timestamp; skipping WAL compaction for safety");
@@ -3058,33 +3059,15 @@ impl HnswBackend {
             }
 
             if all_entries_covered {
-                match std::fs::remove_file(&wal_path) {
-                    Ok(()) => {
-                        debug!(
-                            wal_segment = wal_name,
-                            wal_max_seq = max_seq,
-                            wal_max_ts = max_timestamp,
-                            snapshot_seq = snapshot_last_wal_seq,
-                            snapshot_ts = snapshot_timestamp,
-                            "deleted old WAL segment",
-                        );
-                        deleted_count += 1;
-                    }
-                    Err(e) if e.kind() == std::io::ErrorKind::NotFound => {
-                        warn!(
-                            wal_segment = wal_name,
-                            "WAL segment already missing (skipping)"
-                        );
-                    }
-                    Err(e) => {
-                        error!(
-                            wal_segment = wal_name,
-                            error = %e,
-                            "failed to delete old WAL segment",
-                        );
-                        segments_to_keep.push(wal_name.clone());
-                    }
-                }
+                debug!(
+                    wal_segment = wal_name,
+                    wal_max_seq = max_seq,
+                    wal_max_ts = max_timestamp,
+                    snapshot_seq = snapshot_last_wal_seq,
+                    snapshot_ts = snapshot_timestamp,
+                    "old WAL segment is fully covered by the snapshot",
+                );
+                segments_to_delete.push((wal_name.clone(), wal_path));
             } else {
                 segments_to_keep.push(wal_name.clone());
             }
@@ -3092,6 +3075,38 @@ impl HnswBackend {
 
         // Update manifest with remaining segments
         manifest.wal_segments = segments_to_keep;
+
+        // Crash safety: publish the pruned segment list BEFORE unlinking anything. Strict recovery
+        // fails on a listed-but-missing segment, so a crash between the unlinks and a later
+        // manifest save must never leave a deleted segment listed. A crash after this save merely
+        // leaves unreferenced (fully snapshotted) segment files behind.
+        if !segments_to_delete.is_empty() {
+            manifest.save(data_dir.join("MANIFEST"))?;
+        }
+
+        for (wal_name, wal_path) in segments_to_delete {
+            match std::fs::remove_file(&wal_path) {
+                Ok(()) => {
+                    debug!(wal_segment = wal_name, "deleted old WAL segment");
+                    deleted_count += 1;
+                }
+                Err(e) if e.kind() == std::io::ErrorKind::NotFound => {
+                    warn!(
+                        wal_segment = wal_name,
+                        "WAL segment already missing (skipping)"
+                    );
+                }
+                Err(e) => {
+                    // The segment is no longer referenced by the manifest and is fully covered
+                    // by the snapshot, so a leftover file is harmless.
+                    error!(
+                        wal_segment = wal_name,
+                        error = %e,
+                        "failed to delete old WAL segment",
+                    );
+                }
+            }
+        }
 
         Ok(deleted_count)
     }
